@@ -6,5 +6,6 @@ set -u
 VERIF="$(cd "$(dirname "$0")" && pwd)"
 cd "$VERIF" || exit 2
 ./build.sh ibcsim || { echo "setup: build failed" >&2; exit 2; }
-./selftest-determinism quick || { echo "setup: determinism self-test failed" >&2; exit 2; }
+./build.sh wasmsim || { echo "setup: build of wasmsim failed" >&2; exit 2; }
+SELFTEST_PROPS="${SELFTEST_PROPS:-C01 C30 C12 C20}" ./selftest-determinism quick || { echo "setup: determinism self-test failed" >&2; exit 2; }
 echo "setup ok"
